@@ -32,7 +32,11 @@ def gen_case(rng):
             tmo[k] = t
             lines.append("tmo a%d %d" % (k, t))
         elif r < 0.74:
-            lines.append("sleep a%d %d" % (k, rng.choice([0, 1000, 3000, -1])))
+            # (a sleep whose effective duration is 0 ends after ~1 ms of real time, which the virtual
+            #  clock does not control: not generated)
+            if tmo[k] == 0:
+                continue
+            lines.append("sleep a%d %d" % (k, rng.choice([1000, 1000, 3000, -1])))
         elif r < 0.90:
             # keep well away from the deadlines in use (1000, 3000, 5000 and sums thereof in 500 steps)
             lines.append("advance %d" % rng.choice([400, 1200, 2500, 4000, 6000]))
@@ -59,6 +63,7 @@ def oracle(case, out):
     """exactly once / result / stop clauses on the implementation's own observations"""
     sub, cbn, pending_fin, stopped = {}, {}, {}, set()
     last_begin_ok = {}
+    vnow, tmo, deadline, abort5 = 0, {}, {}, set()
     for i, line in enumerate(case):
         t = line.split()
         m = OBSL.match(out[i]) if i < len(out) else None
@@ -68,7 +73,21 @@ def oracle(case, out):
             return (i, "library did not become quiescent")
         pfx, cbs, owns = m.groups()
         k = int(t[1][1:]) if len(t) > 1 and t[1].startswith("a") else None
+        if t[0] == "advance":
+            vnow += int(t[1])
+        if t[0] == "alloc":
+            tmo[k] = -1
+        if t[0] == "tmo" and pfx == "ok":
+            tmo[k] = int(t[2])
+        if t[0] == "abort" and int(t[2]) == 5:
+            abort5.add(k)
         if t[0] in ("begin", "sleep") and pfx != "busy" and pfx != "noaio":
+            # the deadline of this operation on the virtual clock (None: never)
+            d = tmo.get(k, -1)
+            if t[0] == "sleep":
+                ms = int(t[2])
+                d = ms if (d < 0 or (0 <= ms < d)) else d
+            deadline[k] = None if d < 0 else vnow + d
             sub[k] = sub.get(k, 0) + 1
             if t[0] == "begin":
                 last_begin_ok[k] = pfx == "started=1"
@@ -89,8 +108,10 @@ def oracle(case, out):
                     exp = pending_fin.pop(a)
                     if rv != exp:
                         return (i, "LATE:callback of a%d read %d, the operation had completed with %d" % (a, rv, exp))
-                if t[0] == "advance" and rv == 5 and int(t[1]) < 900:
-                    return (i, "timeout reported before the configured duration")
+                if rv == 5 and a in abort5:
+                    abort5.discard(a)       # an abort with the code NNG_ETIMEDOUT accounts for one such result
+                elif rv == 5 and (deadline.get(a) is None or vnow < deadline[a]):
+                    return (i, "a%d: timeout reported at %d ms, deadline %s" % (a, vnow, deadline.get(a)))
         if t[0] == "stop":
             # everything submitted on that aio before has had its callback when stop returns
             if cbn.get(k, 0) != sub.get(k, 0):
@@ -196,6 +217,22 @@ def run(tier, seed, replay=None):
         if int(m.group(2)) > 0:
             p = rep.replay_file("trace_mismatch_%d.txt" % sd, "\n".join(l for l in o2 if l.startswith("MISMATCH")) + "\n")
             rep.violation(p, "H2 trace: %s critical sections of aio.c are not instances of the model's step functions (seed %d); first: %s" % (m.group(2), sd, [l for l in o2 if l.startswith("MISMATCH")][0][:300]), nofail=True)
+    # ---- 3. the directed schedule of the early-timeout witness (AioProofs.early_timeout_run) on the real expire thread
+    probe, err = wb_build(bdir, "probe_expire_batch.c")
+    probe_out = None
+    if probe is None:
+        p = rep.replay_file("probe_build.txt", err)
+        rep.violation(p, "expire-batch probe does not build", nofail=True)
+    else:
+        rc, out, errtxt = run_prog(probe, "", timeout=120)
+        probe_out = out[-2:]
+        m = [l for l in out if l.startswith("B op2 completed with")]
+        if rc != 0:
+            p = rep.replay_file("probe_crash.txt", "\n".join(out) + errtxt[-3000:])
+            rep.violation(p, "expire-batch probe crashed (rc=%s): %s" % (rc, san_summary(errtxt)))
+        elif m and " with 5 " in m[0]:
+            p = rep.replay_file("early_timeout.txt", "harness/probe_expire_batch.c (schedule of AioProofs.early_timeout_run):\n" + "\n".join(out) + "\n")
+            rep.violation(p, "timeout delivered long before the deadline: " + m[0])
     if tot_bad > 0:
         p = rep.replay_file("late_abort_stress.txt", "under concurrent stress %d of %d callbacks read a result other than the one the operation completed with\n(an abort arriving between completion and callback overwrites a_result: nni_aio_abort with a_cancel_fn == NULL)\nreplay: echo 'stress %d 300 4 4' | wb_aio\n" % (tot_bad, tot_sub, seed * 1000))
         rep.violation(p, "callback read a result other than the completion's (%d of %d under stress)" % (tot_bad, tot_sub), key=KEY_LATE)
@@ -205,7 +242,7 @@ def run(tier, seed, replay=None):
                     "traces_validated_against_impl": nstress, "trace_records_replayed": tot_rec,
                     "trace_kind_histogram": kinds, "unlocked_reset_races_observed": tot_race,
                     "stress_operations": tot_sub, "stress_callbacks_with_foreign_result": tot_bad,
-                    "scripted_cases": len(cases), "scripted_divergences": len(diverged),
+                    "expire_batch_probe": probe_out, "scripted_cases": len(cases), "scripted_divergences": len(diverged),
                     "rule": "scripted: random sequences of begin/finish/cancel/abort/sleep/timeouts/advance(virtual clock)/stop on 1-3 aios with a test provider over the public provider API, implementation vs model line by line + oracle (exactly once, results, stop, no early timeout); stress: 4-8 threads of random concurrent operations on 4-7 aios with the H2 trace on, every logged critical section replayed through the extracted AioFw.fw_step, per-aio submission/callback counters",
                     "samples": [cases[0][:14]],
                     "observations": ["nni_aio_reset writes a_abort/a_result/a_expire_ok/a_sleep without eq_mtx and races with nni_aio_abort (counted as unlocked_reset_races, not a conformance failure)"]})
